@@ -1,5 +1,8 @@
 SPECIFICATION Spec
 CONSTANTS
   WIDE = FALSE
+  EMIT = FALSE
+  TRIPLECAP = 5
+  PAIRCAP = 20
 INVARIANTS TypeLaws ValueLawsHold NonLatticeDocumented BimoLawsHold
 CHECK_DEADLOCK FALSE
